@@ -11,6 +11,7 @@ mod codec;
 mod compile;
 mod compile_ext;
 mod dynval;
+mod files;
 mod proj_c03;
 mod proj_c04;
 mod proj_c05;
@@ -64,6 +65,7 @@ fn run_case(engine: &str, f: &[&str]) -> CaseResult {
         ("buffers", ["src", _fam, buf, ops, exp]) => buffers::run_src(buf, ops, exp),
         ("codec", ["skip", _fam, hx, exp]) => codec::run_skip(hx, exp),
         ("codec", ["reply", _fam, hx, exp]) => codec::run_reply(hx, exp),
+        ("files", ["tree", _fam, tree, argv, exp]) => files::run_tree(tree, argv, exp),
         ("compile", ["compile", _fam, proj, opts, files, exp]) => compile::run_compile(proj, opts, files, exp),
         _ => CaseResult { actual: "?".into(), diff: Some("unknown case shape".into()), oracle: None, nontrivial: false },
     }
